@@ -8,7 +8,7 @@ from .. import boot, core, api
 ID = "C13"
 LEVEL = "exploration"
 BUDGET = {"quick": 120, "thorough": 1500}
-EXAMPLES = {"quick": 160, "thorough": 4000}
+EXAMPLES = {"quick": 400, "thorough": 4000}
 RULE = ("cases = generated class families (properties, data / non-data descriptors, __slots__, metaclass with a "
         "property, __getattr__, __getitem__/__iter__/__next__/__call__/__len__/__bool__ (each counting its calls), "
         "subclasses of builtin containers, inheritance of all these; defined either by exec (no findable source) or "
